@@ -184,8 +184,23 @@ def run_roundtrip(spec, res):
 def run_rtgen(spec, res):
     from vf import au
     from vf.gen import network as gn
+    from vf.oracle import powerflow as opf
     rng = rng_for(spec.get("seed", 0), PROPERTY, 1, spec["index"])
-    net = gn.gen_network(rng, hard=True)
+    # results are compared after the round trip, so the network has to have a regular solution: certified as in C01
+    # (own Newton solver reaches the design solution from a flat start; at a collapsed, singular root 15 significant
+    # digits of a spreadsheet cell are enough to move the answer)
+    net = None
+    for attempt in range(8):
+        cand = gn.gen_network(rng, hard=True)
+        ref = opf.solve(gn.to_oracle(cand), tol=1e-11, max_iter=10)
+        vdes = np.array(cand["sol"]["vm"]) * np.exp(1j * np.array(cand["sol"]["va"]))
+        if ref["converged"] and np.max(np.abs(ref["V"] - vdes)) < 1e-6:
+            net = cand
+            break
+        res.count("networks_rejected_by_oracle")
+    if net is None:
+        res.inconc("no well-posed network in 8 draws")
+        return
     net = gn.present(net, rng, shuffle=True, idx_style=["num", "str", "strnum"][int(rng.integers(0, 3))], rebase=bool(rng.integers(0, 2)))
     # switched shunts carry list-valued per-unit parameters (gs, bs: admittance blocks) on their own device base
     nsw = int(rng.integers(0, 3))
